@@ -13,11 +13,12 @@ use crate::data::{machine::*, table::*, validated_file::*, KikiErr, *};
 use std::collections::HashMap;
 
 pub fn machine_to_table(machine: &Machine, file: &File) -> /*@[*/(r: /*@]*/Result<Table, KikiErr>/*@[*/)/*@]*/
-    //@[ C04 C11 C07 machine_to_table: a table exactly for conflict-free automata; an error pinpoints a real conflict
+    //@[ C04 C11 C07 C17 C14 machine_to_table: a table exactly for conflict-free automata, and then THE table of the automaton (every cell a function of the automaton); an error pinpoints a real conflict
     requires machine_ok(file_rules(file), machine, file_terms(file), file_nts(file)),
     ensures
         r is Ok <==> no_conflict(file_rules(file), machine),
         r matches Err(e) ==> err_is_conflict(file_rules(file), machine, file, e),
+        r matches Ok(t) ==> table_is(file_rules(file), machine, file_terms(file), file_nts(file), &t),
     //@]
 {
     ImmutContext::new(machine, file).get_table()
@@ -303,11 +304,12 @@ impl ImmutContext<'_> {
 
 impl ImmutContext<'_> {
     fn get_table(&self) -> /*@[*/(r: /*@]*/Result<Table, KikiErr>/*@[*/)/*@]*/
-        //@[ C04 C11 C07 ImmutContext::get_table
+        //@[ C04 C11 C07 C17 C14 ImmutContext::get_table
         requires self.ok(),
         ensures
             r is Ok <==> no_conflict(self.rules@, self.machine),
             r matches Err(e) ==> err_is_conflict(self.rules@, self.machine, self.file, e),
+            r matches Ok(t) ==> table_is(self.rules@, self.machine, file_terms(self.file), file_nts(self.file), &t),
         //@]
     {
         let mut builder = TableBuilder::new(self);
@@ -316,6 +318,17 @@ impl ImmutContext<'_> {
         proof { lemma_scanned_all(self.rules@, self.machine, builder.actions@); }
         //@]
         self.add_gotos_to_table(&mut builder);
+        //@[ proof
+        proof {
+            let n = self.machine.states.seq().len() as int;
+            let (acts, gts) = (builder.actions@, builder.gotos@);
+            assert forall|t: Table| #![trigger actions_are(&t, acts, n)] actions_are(&t, acts, n) && gotos_are(&t, gts, n) && t.wf() && t.nstates() == n && t.start == self.machine.start
+                && t.terminals@ == file_terms(self.file) && names_view(t.nonterminals@) == file_nts(self.file)
+                implies table_is(self.rules@, self.machine, file_terms(self.file), file_nts(self.file), &t) by {
+                lemma_table_is(self.rules@, self.machine, file_terms(self.file), file_nts(self.file), &t, acts, gts);
+            }
+        }
+        //@]
         Ok(self.build_as_is(builder))
     }
 }
@@ -671,14 +684,139 @@ impl<'a> TableBuilder<'a> {
     }
 }
 
+//@[ C14 C17 layer T: the table is a function of the two maps (whatever order their entries are listed in)
+/// distinct (state, quasi-terminal) keys address distinct action cells
+pub proof fn lemma_action_pos_injective(t: &Table, s1: StateIndex, q1: Quasiterminal, s2: StateIndex, q2: Quasiterminal)
+    requires qcol(t.terminals@, q1) is Some, qcol(t.terminals@, q2) is Some, t.action_pos(s1, q1) == t.action_pos(s2, q2)
+    ensures s1 == s2, q1 == q2
+{
+    let ts = t.terminals@;
+    if let Quasiterminal::Terminal(a) = q1 { lemma_term_index_bounds(ts, *a, 0); }
+    if let Quasiterminal::Terminal(b) = q2 { lemma_term_index_bounds(ts, *b, 0); }
+    lemma_cell_injective(s1.0 as int, qcol(ts, q1)->Some_0, s2.0 as int, qcol(ts, q2)->Some_0, t.ncols());
+}
+/// distinct (state, nonterminal name) keys address distinct goto cells
+pub proof fn lemma_goto_pos_injective(t: &Table, s1: StateIndex, n1: Seq<char>, s2: StateIndex, n2: Seq<char>)
+    requires nt_index(names_view(t.nonterminals@), n1, 0) is Some, nt_index(names_view(t.nonterminals@), n2, 0) is Some,
+        t.goto_pos(s1, n1) == t.goto_pos(s2, n2)
+    ensures s1 == s2, n1 == n2
+{
+    let ns = names_view(t.nonterminals@);
+    lemma_nt_index_bounds(ns, n1, 0); lemma_nt_index_bounds(ns, n2, 0);
+    lemma_cell_injective(s1.0 as int, nt_index(ns, n1, 0)->Some_0, s2.0 as int, nt_index(ns, n2, 0)->Some_0, ns.len() as int);
+}
+pub proof fn lemma_action_pos_in_range(t: &Table, s: StateIndex, q: Quasiterminal)
+    requires t.wf(), s.0 < t.nstates(), qcol(t.terminals@, q) is Some
+    ensures 0 <= t.action_pos(s, q) < t.actions@.len()
+{
+    if let Quasiterminal::Terminal(a) = q { lemma_term_index_bounds(t.terminals@, *a, 0); }
+    lemma_cell_in_range(s.0 as int, t.nstates(), t.ncols(), qcol(t.terminals@, q)->Some_0);
+}
+pub proof fn lemma_goto_pos_in_range(t: &Table, s: StateIndex, nm: Seq<char>)
+    requires t.wf(), s.0 < t.nstates(), nt_index(names_view(t.nonterminals@), nm, 0) is Some
+    ensures 0 <= t.goto_pos(s, nm) < t.gotos@.len()
+{
+    lemma_nt_index_bounds(names_view(t.nonterminals@), nm, 0);
+    lemma_cell_in_range(s.0 as int, t.nstates(), t.nonterminals@.len() as int, nt_index(names_view(t.nonterminals@), nm, 0)->Some_0);
+}
+pub open spec fn act_unlisted<'a>(l: Seq<((StateIndex, Quasiterminal<'a>), (&'a StateItem, Action))>, idx: int, key: (StateIndex, Quasiterminal<'a>)) -> bool {
+    forall|j: int| 0 <= j < idx ==> (#[trigger] l[j]).0 != key
+}
+pub open spec fn goto_unlisted<'a>(l: Seq<((StateIndex, &'a str), Goto)>, idx: int, s: StateIndex, nm: Seq<char>) -> bool {
+    forall|j: int| 0 <= j < idx ==> !((#[trigger] l[j]).0.0 == s && l[j].0.1@ == nm)
+}
+/// the action cells hold exactly the action map, and the error action elsewhere
+pub open spec fn actions_are<'a>(t: &Table, acts: ActMap<'a>, n: int) -> bool {
+    &&& forall|key: (StateIndex, Quasiterminal<'a>)| #[trigger] acts.contains_key(key) ==> t.actions@[t.action_pos(key.0, key.1)] == acts[key].1
+    &&& forall|s: StateIndex, q: Quasiterminal<'a>| s.0 < n && qcol(t.terminals@, q) is Some && !acts.contains_key((s, q))
+            ==> #[trigger] t.actions@[t.action_pos(s, q)] == Action::Err
+}
+/// the goto cells hold exactly the goto map, and the error goto elsewhere
+pub open spec fn gotos_are<'a>(t: &Table, gts: GotoMap<'a>, n: int) -> bool {
+    &&& forall|key: (StateIndex, &'a str)| #[trigger] gts.contains_key(key) ==> t.gotos@[t.goto_pos(key.0, key.1@)] == gts[key]
+    &&& forall|s: StateIndex, nm: Seq<char>| s.0 < n && nt_index(names_view(t.nonterminals@), nm, 0) is Some
+            && (forall|key: (StateIndex, &'a str)| gts.contains_key(key) ==> !(key.0 == s && key.1@ == nm))
+            ==> #[trigger] t.gotos@[t.goto_pos(s, nm)] == Goto::Err
+}
+//@]
+
+//@[ C17 C14 layer T: the table is THE table of the automaton
+/// cell (s, q) holds the action demanded on q by an item of state s, and the error action if no item demands one
+pub open spec fn action_cell_ok<'a>(rules: Seq<Rule>, m: &Machine, t: &Table, s: int, q: Quasiterminal<'a>) -> bool {
+    let cell = t.actions@[t.action_pos(StateIndex(s as usize), q)];
+    &&& forall|k: int| 0 <= k < items_of(m, s).len() && (#[trigger] demanded(rules, m, StateIndex(s as usize), &items_of(m, s)[k]) matches Some(d) && d.0 == q)
+            ==> cell == demanded(rules, m, StateIndex(s as usize), &items_of(m, s)[k])->Some_0.1
+    &&& (forall|k: int| 0 <= k < items_of(m, s).len() ==> !(#[trigger] demanded(rules, m, StateIndex(s as usize), &items_of(m, s)[k]) matches Some(d) && d.0 == q))
+            ==> cell == Action::Err
+}
+/// cell (s, nm) holds the target of the transition of state s on nonterminal nm, and the error goto if there is none
+pub open spec fn goto_cell_ok(m: &Machine, t: &Table, s: int, nm: Seq<char>) -> bool {
+    let cell = t.gotos@[t.goto_pos(StateIndex(s as usize), nm)];
+    let tr = m.transitions.seq();
+    &&& forall|j: int| 0 <= j < tr.len() && (#[trigger] tr[j]).from == StateIndex(s as usize) && tr[j].symbol is Nonterminal && tr[j].symbol->Nonterminal_0@ == nm
+            ==> cell == Goto::State(tr[j].to)
+    &&& (forall|j: int| 0 <= j < tr.len() ==> !((#[trigger] tr[j]).from == StateIndex(s as usize) && tr[j].symbol is Nonterminal && tr[j].symbol->Nonterminal_0@ == nm))
+            ==> cell == Goto::Err
+}
+pub open spec fn table_is(rules: Seq<Rule>, m: &Machine, terms: Seq<DollarlessTerminalName>, nts: Seq<Seq<char>>, t: &Table) -> bool {
+    &&& t.wf() && t.nstates() == m.states.seq().len() && t.start == m.start && t.terminals@ == terms && names_view(t.nonterminals@) == nts
+    &&& forall|s: int, q: Quasiterminal| 0 <= s < m.states.seq().len() && qcol(terms, q) is Some ==> #[trigger] action_cell_ok(rules, m, t, s, q)
+    &&& forall|s: int, nm: Seq<char>| 0 <= s < m.states.seq().len() && nt_index(nts, nm, 0) is Some ==> #[trigger] goto_cell_ok(m, t, s, nm)
+}
+pub proof fn lemma_table_is<'a>(rules: Seq<Rule>, m: &Machine, terms: Seq<DollarlessTerminalName>, nts: Seq<Seq<char>>, t: &Table, acts: ActMap<'a>, gts: GotoMap<'a>)
+    requires
+        m.states.seq().len() <= usize::MAX,
+        acts_inv(rules, m, acts, m.states.seq().len() as int, 0), gotos_inv(m, gts, m.transitions.seq().len() as int),
+        t.wf(), t.nstates() == m.states.seq().len(), t.start == m.start, t.terminals@ == terms, names_view(t.nonterminals@) == nts,
+        actions_are(t, acts, m.states.seq().len() as int), gotos_are(t, gts, m.states.seq().len() as int),
+    ensures table_is(rules, m, terms, nts, t)
+{
+    let n = m.states.seq().len() as int;
+    assert forall|s: int, q: Quasiterminal| 0 <= s < n && qcol(terms, q) is Some implies #[trigger] action_cell_ok(rules, m, t, s, q) by {
+        let si = StateIndex(s as usize);
+        let cell = t.actions@[t.action_pos(si, q)];
+        assert forall|k: int| 0 <= k < items_of(m, s).len() && (#[trigger] demanded(rules, m, si, &items_of(m, s)[k]) matches Some(d) && d.0 == q)
+            implies cell == demanded(rules, m, si, &items_of(m, s)[k])->Some_0.1 by {
+            assert(processed(s, k, n, 0));
+            assert(acts.contains_key((si, q)));
+        }
+        if forall|k: int| 0 <= k < items_of(m, s).len() ==> !(#[trigger] demanded(rules, m, si, &items_of(m, s)[k]) matches Some(d) && d.0 == q) {
+            if acts.contains_key((si, q)) {
+                let k = choose|k: int| act_witness(rules, m, acts, (si, q), k, n, 0);
+                assert(demanded(rules, m, si, &items_of(m, s)[k]) == Some((q, acts[(si, q)].1)));
+                assert(false);
+            }
+        }
+    }
+    assert forall|s: int, nm: Seq<char>| 0 <= s < n && nt_index(nts, nm, 0) is Some implies #[trigger] goto_cell_ok(m, t, s, nm) by {
+        let si = StateIndex(s as usize);
+        let tr = m.transitions.seq();
+        let cell = t.gotos@[t.goto_pos(si, nm)];
+        assert forall|j: int| 0 <= j < tr.len() && (#[trigger] tr[j]).from == si && tr[j].symbol is Nonterminal && tr[j].symbol->Nonterminal_0@ == nm
+            implies cell == Goto::State(tr[j].to) by {
+            let key = choose|key: (StateIndex, &'a str)| gts.contains_key(key) && goto_witness(m, gts, key, j, tr.len() as int);
+            assert(t.gotos@[t.goto_pos(key.0, key.1@)] == gts[key]);
+        }
+        if forall|j: int| 0 <= j < tr.len() ==> !((#[trigger] tr[j]).from == si && tr[j].symbol is Nonterminal && tr[j].symbol->Nonterminal_0@ == nm) {
+            assert forall|key: (StateIndex, &'a str)| gts.contains_key(key) implies !(key.0 == si && key.1@ == nm) by {
+                let j = choose|j: int| goto_witness(m, gts, key, j, tr.len() as int);
+                assert(tr[j].from == key.0);
+            }
+        }
+    }
+}
+//@]
+
 impl ImmutContext<'_> {
     fn build_as_is(&self, builder: TableBuilder) -> /*@[*/(r: /*@]*/Table/*@[*/)/*@]*/
-        //@[ C07 C14 C17 build_as_is: cells are written by key, so the (unspecified) listing order of the hash maps is irrelevant for totality
+        //@[ C07 C14 C17 build_as_is: cells are written by key, so the table is a function of the two maps: the (unspecified) listing order of the hash maps cannot influence it
         requires self.ok(),
             acts_inv(self.rules@, self.machine, builder.actions@, self.machine.states.seq().len() as int, 0),
             gotos_inv(self.machine, builder.gotos@, self.machine.transitions.seq().len() as int),
         ensures r.wf(), r.nstates() == self.machine.states.seq().len(), r.start == self.machine.start,
             r.terminals@ == file_terms(self.file), names_view(r.nonterminals@) == file_nts(self.file),
+            actions_are(&r, builder.actions@, self.machine.states.seq().len() as int),
+            gotos_are(&r, builder.gotos@, self.machine.states.seq().len() as int),
         //@]
     {
         let mut table = get_empty_table(self.machine, self.file);
@@ -688,6 +826,13 @@ impl ImmutContext<'_> {
         let ghost n = self.machine.states.seq().len() as int;
         //@]
 
+        //@[ proof
+        proof {
+            assert forall|s: StateIndex, q: Quasiterminal| s.0 < n && qcol(table.terminals@, q) is Some implies 0 <= #[trigger] table.action_pos(s, q) < table.actions@.len() by {
+                lemma_action_pos_in_range(&table, s, q);
+            }
+        }
+        //@]
         for ((state, quasiterminal), (_, action)) in /*@[*/__vx_it: /*@]*//*@{ T6_actions*//*@- builder.actions *//*@|*/__vx_hash_listing(builder.actions)/*@}*/
             //@[ C07 C14 loop invariant (actions): the table keeps its shape; every listed key addresses an existing cell
             invariant
@@ -695,21 +840,55 @@ impl ImmutContext<'_> {
                 is_map_listing(acts, __vx_it.seq()),
                 table.wf(), table.nstates() == n, table.start == self.machine.start,
                 table.terminals@ == file_terms(self.file), names_view(table.nonterminals@) == file_nts(self.file),
+                forall|j: int| 0 <= j < __vx_it.index@ ==> table.actions@[table.action_pos((#[trigger] __vx_it.seq()[j]).0.0, __vx_it.seq()[j].0.1)] == __vx_it.seq()[j].1.1,
+                forall|s: StateIndex, q: Quasiterminal| s.0 < n && qcol(table.terminals@, q) is Some && act_unlisted(__vx_it.seq(), __vx_it.index@, (s, q))
+                    ==> #[trigger] table.actions@[table.action_pos(s, q)] == Action::Err,
+                forall|i: int| 0 <= i < table.gotos@.len() ==> #[trigger] table.gotos@[i] == Goto::Err,
+                forall|s: StateIndex, q: Quasiterminal| s.0 < n && qcol(table.terminals@, q) is Some ==> 0 <= #[trigger] table.action_pos(s, q) < table.actions@.len(),
+            ensures
+                actions_are(&table, acts, n),
             //@]
         {
             //@[ proof
+            let ghost idx = __vx_it.index@;
+            let ghost lst = __vx_it.seq();
+            let ghost t0 = table;
             proof {
                 let key = (state, quasiterminal);
-                assert(__vx_it.seq()[__vx_it.index@].0 == key);
+                assert(lst[idx].0 == key);
                 assert(acts.contains_key(key));
                 let k = choose|k: int| act_witness(self.rules@, self.machine, acts, key, k, n, 0);
                 assert(StateIndex(state.0 as int as usize) == state);
                 let it = items_of(self.machine, state.0 as int)[k];
+                // keys listed earlier and unlisted keys address other cells
+                assert forall|j: int| 0 <= j < idx implies t0.action_pos((#[trigger] lst[j]).0.0, lst[j].0.1) != t0.action_pos(state, quasiterminal) by {
+                    let kj = lst[j].0;
+                    assert(acts.contains_key(kj));
+                    let k2 = choose|k2: int| act_witness(self.rules@, self.machine, acts, kj, k2, n, 0);
+                    assert(StateIndex(kj.0.0 as int as usize) == kj.0);
+                    let it2 = items_of(self.machine, kj.0.0 as int)[k2];
+                    if t0.action_pos(kj.0, kj.1) == t0.action_pos(state, quasiterminal) { lemma_action_pos_injective(&t0, kj.0, kj.1, state, quasiterminal); }
+                }
+                assert forall|s: StateIndex, q: Quasiterminal| s.0 < n && qcol(t0.terminals@, q) is Some && act_unlisted(lst, idx + 1, (s, q))
+                    implies t0.action_pos(s, q) != t0.action_pos(state, quasiterminal) && act_unlisted(lst, idx, (s, q)) by {
+                    if t0.action_pos(s, q) == t0.action_pos(state, quasiterminal) { lemma_action_pos_injective(&t0, s, q, state, quasiterminal); assert(lst[idx].0 == (s, q)); }
+                }
             }
             //@]
             table.set_action(state, quasiterminal, action);
+            //@[ proof
+            proof { assert forall|s: StateIndex, q: Quasiterminal| #[trigger] table.action_pos(s, q) == t0.action_pos(s, q) by {} }
+            //@]
         }
 
+        //@[ proof
+        let ghost t1 = table;
+        proof {
+            assert forall|s: StateIndex, nm: Seq<char>| s.0 < n && nt_index(names_view(table.nonterminals@), nm, 0) is Some implies 0 <= #[trigger] table.goto_pos(s, nm) < table.gotos@.len() by {
+                lemma_goto_pos_in_range(&table, s, nm);
+            }
+        }
+        //@]
         for ((state, nonterminal), goto) in /*@[*/__vx_it2: /*@]*//*@{ T6_gotos*//*@- builder.gotos *//*@|*/__vx_hash_listing(builder.gotos)/*@}*/
             //@[ C07 C14 loop invariant (gotos)
             invariant
@@ -717,19 +896,52 @@ impl ImmutContext<'_> {
                 is_map_listing(gts, __vx_it2.seq()),
                 table.wf(), table.nstates() == n, table.start == self.machine.start,
                 table.terminals@ == file_terms(self.file), names_view(table.nonterminals@) == file_nts(self.file),
+                table.actions == t1.actions, table.terminals == t1.terminals, table.nonterminals == t1.nonterminals,
+                forall|j: int| 0 <= j < __vx_it2.index@ ==> table.gotos@[table.goto_pos((#[trigger] __vx_it2.seq()[j]).0.0, __vx_it2.seq()[j].0.1@)] == __vx_it2.seq()[j].1,
+                forall|s: StateIndex, nm: Seq<char>| s.0 < n && nt_index(names_view(table.nonterminals@), nm, 0) is Some && goto_unlisted(__vx_it2.seq(), __vx_it2.index@, s, nm)
+                    ==> #[trigger] table.gotos@[table.goto_pos(s, nm)] == Goto::Err,
+                forall|s: StateIndex, nm: Seq<char>| s.0 < n && nt_index(names_view(table.nonterminals@), nm, 0) is Some ==> 0 <= #[trigger] table.goto_pos(s, nm) < table.gotos@.len(),
+            ensures
+                gotos_are(&table, gts, n), table.actions == t1.actions, table.terminals == t1.terminals,
             //@]
         {
             //@[ proof
+            let ghost idx = __vx_it2.index@;
+            let ghost lst = __vx_it2.seq();
+            let ghost t0 = table;
             proof {
                 let key = (state, nonterminal);
-                assert(__vx_it2.seq()[__vx_it2.index@].0 == key);
+                assert(lst[idx].0 == key);
                 assert(gts.contains_key(key));
                 let j = choose|j: int| goto_witness(self.machine, gts, key, j, self.machine.transitions.seq().len() as int);
                 let t = self.machine.transitions.seq()[j];
+                assert forall|j2: int| 0 <= j2 < idx implies t0.goto_pos((#[trigger] lst[j2]).0.0, lst[j2].0.1@) != t0.goto_pos(state, nonterminal@) by {
+                    let kj = lst[j2].0;
+                    assert(gts.contains_key(kj));
+                    let j3 = choose|j3: int| goto_witness(self.machine, gts, kj, j3, self.machine.transitions.seq().len() as int);
+                    let tr3 = self.machine.transitions.seq()[j3];
+                    if t0.goto_pos(kj.0, kj.1@) == t0.goto_pos(state, nonterminal@) {
+                        lemma_goto_pos_injective(&t0, kj.0, kj.1@, state, nonterminal@);
+                        axiom_str_ext(kj.1, nonterminal);
+                    }
+                }
+                assert forall|s: StateIndex, nm: Seq<char>| s.0 < n && nt_index(names_view(t0.nonterminals@), nm, 0) is Some && goto_unlisted(lst, idx + 1, s, nm)
+                    implies t0.goto_pos(s, nm) != t0.goto_pos(state, nonterminal@) && goto_unlisted(lst, idx, s, nm) by {
+                    if t0.goto_pos(s, nm) == t0.goto_pos(state, nonterminal@) { lemma_goto_pos_injective(&t0, s, nm, state, nonterminal@); assert(lst[idx].0.0 == s && lst[idx].0.1@ == nm); }
+                }
             }
             //@]
             table.set_goto(state, nonterminal, goto);
+            //@[ proof
+            proof { assert forall|s: StateIndex, nm: Seq<char>| #[trigger] table.goto_pos(s, nm) == t0.goto_pos(s, nm) by {} }
+            //@]
         }
+        //@[ proof
+        proof {
+            assert forall|s: StateIndex, q: Quasiterminal| #[trigger] table.action_pos(s, q) == t1.action_pos(s, q) by {}
+            assert(actions_are(&table, acts, n));
+        }
+        //@]
 
         table
     }
